@@ -4,11 +4,20 @@ use crate::engine::*;
 pub mod c01;
 pub mod c01_rules;
 pub mod c02;
+pub mod c05;
 pub mod c06;
 mod c06_sql;
 mod c06_vals;
 pub mod c11;
 mod c11_data;
+pub mod c12;
+pub mod c14;
+mod c14_gen;
+mod c14_model;
+pub mod c16;
+mod c16_db;
+mod c16_ins;
+mod c16_q;
 pub mod c18;
 pub mod c19;
 mod c19_model;
@@ -17,5 +26,5 @@ pub mod selftest;
 pub mod sqlcase;
 
 pub fn all() -> Vec<PropDef> {
-    vec![selftest::def(), c01::def(), c02::def(), c06::def(), c11::def(), c18::def(), c19::def(), c20::def()]
+    vec![selftest::def(), c01::def(), c02::def(), c05::def(), c06::def(), c11::def(), c12::def(), c14::def(), c16::def(), c18::def(), c19::def(), c20::def()]
 }
